@@ -179,9 +179,10 @@ def is_month_end(s):
 
 def datedif(s1, s2, unit):
     """D / M / Y for s1 <= s2.  'M' = 12*dy + dm - [day2 < day1], 'Y' = that
-    div 12.  Pairs on which the day-comparison rule and the clip-to-month-end
-    rule disagree (day2 < day1 and day2 is the last day of its month) are
-    refused: 'complete months' is ambiguous there."""
+    div 12 (DESIGN.md fixed this rule in advance; it is Excel's: a month
+    counts once the day of the start date is reached again, so 31 Jan -> 28
+    Feb is 0 complete months - a rule that clips the start day to the end of
+    a shorter month would say 1)."""
     if s1 > s2:
         raise Unjudged('datedif-start-after-end')
     if unit == 'D':
@@ -190,8 +191,6 @@ def datedif(s1, s2, unit):
         raise Unjudged('phantom-day')
     y1, m1, d1 = fields(s1)
     y2, m2, d2 = fields(s2)
-    if d2 < d1 and is_month_end(s2):
-        raise Unjudged('complete-months-ambiguous-at-month-end')
     if (y2, m2) == (1900, 2) and d1 > 28:
         raise Unjudged('end-of-february-1900')
     months = 12 * (y2 - y1) + (m2 - m1) - (1 if d2 < d1 else 0)
@@ -366,12 +365,8 @@ def selftest():
     assert datedif(s(D(2020, 2, 29)), s(D(2021, 3, 1)), 'Y') == 1
     assert datedif(s(D(2020, 1, 15)), s(D(2020, 2, 14)), 'M') == 0
     assert datedif(s(D(2020, 1, 15)), s(D(2020, 2, 15)), 'M') == 1
-    try:
-        datedif(s(D(2020, 1, 31)), s(D(2020, 2, 29)), 'M')
-    except Unjudged:
-        pass
-    else:
-        raise AssertionError('month-end ambiguity must be refused')
+    assert datedif(s(D(2020, 1, 31)), s(D(2020, 2, 29)), 'M') == 0
+    assert datedif(s(D(2020, 2, 29)), s(D(2021, 2, 28)), 'Y') == 0
     # YEARFRAC (Excel documentation examples)
     a, b = s(D(2012, 1, 1)), s(D(2012, 7, 30))
     assert abs(yearfrac(a, b, 1)[0] - 0.57650273) < 1e-8
